@@ -184,7 +184,7 @@ class RefRib:
                     p = d[k]
                     if p['src'][1] != addr: continue
                     if kind == 0 or (kind == 1 and p['src'][0] in self.stale) or \
-                       (kind == 2 and (p['src'][0] in self.llgr or p['attr']['llgr'])) or \
+                       (kind == 2 and p['src'][0] in self.llgr) or \
                        (kind == 3 and p['attr']['nollgr']):
                         del d[k]
         elif t == 'restale':
